@@ -3,7 +3,7 @@
    (dig.logWithCtx.get) are REGENERATED from the repository on every run
    (Gen/); [gen_ok] is re-checked against what the source says now. *)
 From Coq Require Import List String Bool.
-From Shovel Require Import Model.Plan Model.Provides Model.PlanCheck Proofs.PlanP Proofs.C14P Gen.GlfTables Gen.GetFields.
+From Shovel Require Import Model.Plan Model.Provides Model.PlanCheck Proofs.PlanP Proofs.C14P Gen.GlfTables Gen.GetFields Gen.FetchFills Gen.GetDispatch.
 Import ListNotations.
 Open Scope string_scope.
 
@@ -16,24 +16,29 @@ Theorem plan_depends_on_classes : forall T steps needs1 needs2,
 Proof. exact plan_classes. Qed.
 Print Assumptions plan_depends_on_classes.
 
-(* soundness of the finite check, for ARBITRARY tables, steps, provides-relation
+(* soundness of the finite check, for ARBITRARY tables, steps, dispatch, provides-relation
    and name list, and for ALL field sets S (no bound, not a sample): in every
    indexing mode, every field of every set selectable in that mode is supplied
    by the requests Client.Get makes for glf.New(S ++ required fields) *)
-Theorem check_plan_sound : forall T steps P names,
-  check_plan T steps P names = true ->
+Theorem check_plan_sound : forall T steps disp P names,
+  check_plan T steps disp P names = true ->
   forall m S, incl S names -> mode_ok m S ->
-  forall f, In f S -> supplied_b P (dispatch (new T steps (needs_of m S))) m f = true.
+  forall f, In f S -> supplied_b P (disp (new T steps (needs_of m S))) m f = true.
 Proof. exact check_plan_sound_l. Qed.
 Print Assumptions check_plan_sound.
 
-(* the instance for the tables / if-blocks / case labels read from the source of this run *)
-Theorem gen_ok : check_plan glf_tables glf_steps provides get_fields = true.
+(* the instance for what the source of this run says: planner tables and if-blocks
+   (glf/filter.go), the switch / if statements of Client.Get (disp_gen), which struct
+   fields each request fills (provides_gen: json tags of eth/types.go, writes of
+   receipts()/logs()/traces()), and the struct field each case label of get returns *)
+(* printed for the report when gen_ok fails: the first offending (mode, names of the class set, field); normally [] *)
+Eval vm_compute in (firstn 3 (counterexamples glf_tables glf_steps disp_gen provides_gen get_fields)).
+Theorem gen_ok : check_plan glf_tables glf_steps disp_gen provides_gen get_fields = true.
 Proof. vm_compute. reflexivity. Qed.
 Print Assumptions gen_ok.
 
-Theorem C14_holds : C14_full glf_tables glf_steps dispatch provides get_fields.
-Proof. exact (check_plan_gives_full _ _ _ _ gen_ok). Qed.
+Theorem C14_holds : C14_full glf_tables glf_steps disp_gen provides_gen get_fields.
+Proof. exact (check_plan_gives_full _ _ _ _ _ gen_ok). Qed.
 Print Assumptions C14_holds.
 
 (* the same statement is false for the planner tables as found (witness:
@@ -53,7 +58,7 @@ Theorem legacy_defect_witnesses :
   /\ (supplied_b provides (dispatch (new legacy_tables legacy_steps (needs_of MLog [f_gp; f_addr]))) MLog f_gp = false)
   /\ (supplied_b provides (dispatch (new legacy_tables legacy_steps (needs_of MTrace [f_tidx]))) MTrace f_tidx = false)
   /\ (supplied_b provides (legacy_dispatch (new glf_tables glf_steps (needs_of MTrace [f_status; f_tfrom]))) MTrace f_tfrom = false)
-  /\ check_plan legacy_tables legacy_steps provides get_fields = false.
+  /\ check_plan legacy_tables legacy_steps dispatch provides get_fields = false.
 Proof.
   exact (conj (proj2 legacy_egp_not_fetched) (conj (proj2 legacy_gas_price_not_fetched) (conj (proj2 legacy_gas_price_with_event)
         (conj legacy_trace_idx_alone (conj (proj1 (proj2 (proj2 (proj2 legacy_receipts_and_traces)))) checker_rejects_legacy_tables))))).
@@ -63,7 +68,7 @@ Print Assumptions legacy_defect_witnesses.
 (* non-vacuity: the hypotheses of C14_holds are satisfiable, e.g. a trace integration that also selects tx_status *)
 Example ex_selectable :
   incl [f_status; f_tfrom] get_fields /\ mode_ok MTrace [f_status; f_tfrom]
-  /\ dispatch (new glf_tables glf_steps (needs_of MTrace [f_status; f_tfrom])) = [GNumbers; GReceipts; GTraces].
+  /\ disp_gen (new glf_tables glf_steps (needs_of MTrace [f_status; f_tfrom])) = [GNumbers; GReceipts; GTraces].
 Proof.
   split; [|split].
   - intros x [Hx|[Hx|[]]]; subst; apply in_get_fields; vm_compute; reflexivity.
